@@ -5,7 +5,7 @@
    snapshots of real pages during long API histories (T2b).  The composition "every API call is a sequence of these micro-steps" is
    the tested part; the implementation-side shadow oracle (harness/seq.c) checks overlap and contents on the real allocator. -/
 import MiVerif.Lemmas.PageMore
-import MiVerif.Lemmas.Coalesce
+import MiVerif.Lemmas.SegReach
 
 namespace C01
 open PageM
@@ -70,6 +70,28 @@ open SegM in
 theorem span_areas_disjoint (S sl : Nat) (x y : Span) (h : x.1 + x.2.1 ≤ y.1) : S + (x.1 + x.2.1) * sl ≤ S + y.1 * sl := by
   have := Nat.mul_le_mul_right sl h; omega
 
+/-- **composition, same segment**: live blocks of two different pages of one segment are disjoint: the pages lie in different spans
+    (`spans_disjoint`), each page's block area lies inside its span, and each live block lies inside its page's block area -/
+theorem live_blocks_of_two_pages_disjoint (p q : Page) (hp : Inv p) (hq : Inv q) (S sl : Nat) (x y : SegM.Span) (hxy : x.1 + x.2.1 ≤ y.1)
+    (startp bsp startq bsq i j : Nat) (hi : i ∈ p.live) (hj : j ∈ q.live)
+    (hpa : startp + p.reserved * bsp ≤ S + (x.1 + x.2.1) * sl) (hqa : S + y.1 * sl ≤ startq) :
+    blockAddr startp bsp i + bsp ≤ blockAddr startq bsq j := by
+  have _ := hj; have _ := hq
+  have hbi : i < p.capacity := hp.bound i (by simp [hi])
+  have h2 := block_in_area startp bsp p.capacity p.reserved i (p.reserved * bsp) hbi hp.cap (Nat.le_refl _)
+  have h3 := span_areas_disjoint S sl x y hxy
+  have h4 : startq ≤ blockAddr startq bsq j := by unfold blockAddr; omega
+  omega
+
+/-- **composition, different segments**: segments are `segSize`-aligned regions of `segSize` bytes, so blocks inside two different
+    segments are disjoint whatever the pages are -/
+theorem live_blocks_of_two_segments_disjoint (segSize s1 s2 a1 n1 a2 : Nat) (h12 : s1 < s2)
+    (h1 : a1 + n1 ≤ s1 * segSize + segSize) (h2 : s2 * segSize ≤ a2) : a1 + n1 ≤ a2 := by
+  have h3 : (s1 + 1) * segSize ≤ s2 * segSize := Nat.mul_le_mul_right segSize h12
+  have e : (s1 + 1) * segSize = s1 * segSize + segSize := Nat.succ_mul s1 segSize
+  rw [e] at h3
+  omega
+
 open SegM in
 /-- allocating a page in a free span writes exactly the entries of that span: the new span is well formed and every span
     disjoint from it keeps its entries (so no other page's back-pointers are touched) -/
@@ -91,6 +113,63 @@ open SegM in
 theorem coalesce_with_next (g : Seg) (pre post : List Span) (s c nc : Nat) (u : Bool)
     (hr : Repr g (pre ++ (s, c, u) :: (s + c, nc, false) :: post)) (hn : coNext g s = true) (hp : coPrev g s = false) :
     Repr (coalesce g s).1 (pre ++ (s, c + nc, false) :: post) := coalesce_next_repr g pre post s c nc u hr hn hp
+
+open SegM in
+/-- freeing a page whose neighbours are both in use: only the flag of its span changes -/
+theorem coalesce_alone (g : Seg) (pre post : List Span) (s c : Nat) (u : Bool)
+    (hr : Repr g (pre ++ (s, c, u) :: post)) (hn : coNext g s = false) (hp : coPrev g s = false) :
+    Repr (coalesce g s).1 (pre ++ (s, c, false) :: post) := coalesce_none_repr g pre post s c u hr hn hp
+
+open SegM in
+/-- ... with a free predecessor: the merged free span starts at the predecessor (found through the back offset of its last slice) -/
+theorem coalesce_with_prev (g : Seg) (pre post : List Span) (ps pc c : Nat) (u : Bool)
+    (hr : Repr g (pre ++ (ps, pc, false) :: (ps + pc, c, u) :: post)) (hn : coNext g (ps + pc) = false) (hp : coPrev g (ps + pc) = true) :
+    Repr (coalesce g (ps + pc)).1 (pre ++ (ps, pc + c, false) :: post) := coalesce_prev_repr g pre post ps pc c u hr hn hp
+
+open SegM in
+/-- ... between two free spans: all three merge -/
+theorem coalesce_with_both (g : Seg) (pre post : List Span) (ps pc c nc : Nat) (u : Bool)
+    (hr : Repr g (pre ++ (ps, pc, false) :: (ps + pc, c, u) :: (ps + pc + c, nc, false) :: post))
+    (hn : coNext g (ps + pc) = true) (hp : coPrev g (ps + pc) = true) :
+    Repr (coalesce g (ps + pc)).1 (pre ++ (ps, pc + c + nc, false) :: post) := coalesce_both_repr g pre post ps pc c nc u hr hn hp
+
+open SegM in
+/-- **allocating a page keeps the tiling**: taking `k` slices at the start of any free span of a well-formed segment (exact fit or
+    split; this is what mi_segments_page_find_and_allocate does with the span its queue search returns, `findAndAllocate_is_allocAt`)
+    leaves a well-formed segment in which `(s, k)` is a page -/
+theorem page_alloc_keeps_tiling (g : Seg) (sp : List Span) (s c k : Nat) (hr : Repr g sp) (hm : (s, c, false) ∈ sp) (hk : 0 < k) (hkc : k ≤ c) :
+    ∃ sp', Repr (allocAt g s k) sp' ∧ (s, k, true) ∈ sp' := alloc_repr_exists g sp s c k hr hm hk hkc
+
+open SegM in
+/-- **freeing a page keeps the tiling**, whatever its neighbours are: the tests the code makes on the neighbours (next slice's block
+    size, first slice of the previous span through the back offset) are determined by the invariant (`coNext_eq`, `coPrev_eq`), and
+    each of the four outcomes (no merge, merge with next, with previous, with both) re-establishes it -/
+theorem page_free_keeps_tiling (g : Seg) (sp : List Span) (s c : Nat) (u : Bool) (hr : Repr g sp) (hm : (s, c, u) ∈ sp) :
+    ∃ sp', Repr (coalesce g s).1 sp' := by
+  obtain ⟨pre, post, rfl⟩ := List.append_of_mem hm
+  exact free_repr_exists g pre post s c u hr
+
+open SegM in
+/-- **every reachable segment state is tiled by disjoint spans**: from a fresh segment, after any sequence of page allocations and
+    page frees, the slice array has a representation by spans that tile it (so no two pages ever share a slice: `spans_disjoint`) -/
+theorem segment_tiling_reachable (entries info : Nat) (hi : 0 < info) (hie : info < entries) (ops : List SegOp)
+    (hok : SegOpsOk (init entries info) ops) : ∃ sp, Repr (ops.foldl segStep (init entries info)) sp := by
+  have h0 : ∃ sp, Repr (init entries info) sp := ⟨_, init_repr entries info hi hie⟩
+  generalize init entries info = g at hok h0
+  induction ops generalizing g with
+  | nil => exact h0
+  | cons op ops ih =>
+    simp only [List.foldl_cons]
+    obtain ⟨hen, hrest⟩ := hok
+    apply ih _ hrest
+    cases op with
+    | alloc s k =>
+      obtain ⟨sp, c, hr, hm, hk, hkc⟩ := hen
+      obtain ⟨sp', hr', _⟩ := alloc_repr_exists g sp s c k hr hm hk hkc
+      exact ⟨sp', hr'⟩
+    | free s =>
+      obtain ⟨sp, c, u, hr, hm⟩ := hen
+      exact page_free_keeps_tiling g sp s c u hr hm
 
 -- non-vacuity: a concrete reachable page state
 example : Inv ([Op.extend 4, Op.pop, Op.pop, Op.freeLocal 0, Op.lfCollect].foldl step (init 8)) := page_invariant_reachable 8 _
